@@ -151,8 +151,14 @@ impl futures::Stream for ScriptedStream {
                 s.reported_end = true;
                 drop(s);
                 log(EvKind::StreamEnded { stream: self.id });
+                Poll::Ready(None)
+            } else {
+                // a stream must not be polled again after it returned None (the contract leaves the
+                // outcome open: panic, block, ...); this one blocks forever and records the fact
+                drop(s);
+                log(EvKind::Note(format!("stream {} polled after it had ended", self.id)));
+                Poll::Pending
             }
-            Poll::Ready(None)
         } else {
             s.waker = Some(cx.waker().clone());
             Poll::Pending
